@@ -162,10 +162,12 @@ PLAN["C11"] = dict(
     quick=[
         dict(kind="enum", test="TestC11Scope", solo=True, timeout=900),
         dict(test="TestC11Rapid", checks=15000, shards=8, counts=["C11.shift"]),
+        dict(test="TestC11RelocRapid", checks=20000, shards=2, counts=["C11.reloc"]),
     ],
     thorough=[
         dict(kind="enum", test="TestC11Scope", solo=True, timeout=3000, env={"VERIF_DEPTH": 1}),
         dict(test="TestC11Rapid", checks=60000, shards=16, counts=["C11.shift"], timeout=3000),
+        dict(test="TestC11RelocRapid", checks=200000, shards=2, counts=["C11.reloc"], timeout=3000),
     ],
 )
 
@@ -334,7 +336,7 @@ PLAN["C10"] = dict(
         dict(test="TestC10Rapid", checks=40000, shards=8, counts=["C10.num"]),
     ],
     thorough=[
-        dict(kind="enum", test="TestC10Enum", timeout=1200, env={"VERIF_C10_DIGITS": 6}),
+        dict(kind="enum", test="TestC10Enum", timeout=1200, env={"VERIF_C10_DIGITS": 7}),
         dict(test="TestC10Rapid", checks=500000, shards=12, counts=["C10.num"], timeout=3000),
     ],
 )
@@ -458,3 +460,9 @@ PLAN["C20"] = dict(
         dict(test="TestC20Rapid", checks=600000, shards=12, counts=["C20.ip4"], timeout=3000),
     ],
 )
+
+
+# native coverage-guided fuzzing: thorough tier only (cannot be seeded; the saved input is the reproducible unit)
+for _p, _t in (("C01", "FuzzC01"), ("C02", "FuzzC02"), ("C03", "FuzzC03"), ("C04", "FuzzC04"), ("C14", "FuzzC14"),
+               ("C18", "FuzzC14"), ("C20", "FuzzC20")):
+    PLAN[_p]["thorough"].append(dict(kind="fuzz", test=_t, fuzztime="120s", solo=True, timeout=600))
